@@ -169,14 +169,38 @@ Theorem objects_history_admin_kept : forall auth ops s q,
 Proof. exact table_objects_history_admin. Qed.
 Print Assumptions objects_history_admin_kept.
 
-(** ... every ERC20 binding that exists survives unchanged unless the governance authority signs: no
-    token admin's correctly self-signed message alters a binding made by governance or by another
-    admin (nor its own, once made). *)
-Theorem objects_history_binding_kept : forall auth ops s,
-  (forall op, In op ops -> signer auth op <> Some auth) ->
-  forall e d, e2d s e = Some d -> e2d (orun Gen.C03.code_shape ops s) e = Some d.
-Proof. exact table_objects_history_binding. Qed.
+(** ... every LIVE ERC20 binding (forward entry denom -> erc20 with its reverse entry) of a denom that
+    q administers survives unchanged unless q or the governance authority signs: no other token
+    admin's correctly self-signed message alters it, and no genesis round trip of tokenfactory or of
+    skyway (which rebuilds the reverse index from the forward one, in whatever export order).
+    [bindings_consistent]: the forward index is injective and contained in the reverse index — it
+    holds initially and after every step governance does not sign ([bindings_consistent_kept]). *)
+Theorem objects_history_binding_kept : forall auth ops s q d e,
+  bindings_consistent s ->
+  (forall op, In op ops -> signer auth op <> Some auth /\ signer auth op <> Some q) ->
+  admin_of s d = Some q -> d2e s d = Some e ->
+  admin_of (orun Gen.C03.code_shape ops s) d = Some q /\ d2e (orun Gen.C03.code_shape ops s) d = Some e /\
+  e2d (orun Gen.C03.code_shape ops s) e = Some d.
+Proof. exact table_objects_history_live_binding. Qed.
 Print Assumptions objects_history_binding_kept.
+
+(** ... and governance's bindings of native denoms are altered by nobody but governance. *)
+Theorem objects_history_native_binding_kept : forall auth ops s d e,
+  bindings_consistent s ->
+  (forall op, In op ops -> signer auth op <> Some auth) ->
+  fst d = 0 -> admin_of s d = None -> d2e s d = Some e ->
+  d2e (orun Gen.C03.code_shape ops s) d = Some e /\ e2d (orun Gen.C03.code_shape ops s) e = Some d.
+Proof. exact table_objects_history_native_binding. Qed.
+Print Assumptions objects_history_native_binding_kept.
+
+Theorem bindings_consistent_kept : forall auth s op s' b,
+  ostep Gen.C03.code_shape s op = (s', b) -> signer auth op <> Some auth -> bindings_consistent s -> bindings_consistent s'.
+Proof. intros auth s op s' b. exact (bindings_consistent_step _ auth s op s' b bind_guard_on_written_index_lemma). Qed.
+Print Assumptions bindings_consistent_kept.
+
+Theorem bindings_consistent_initially : bindings_consistent init_env1.
+Proof. exact bindings_consistent_init1. Qed.
+Print Assumptions bindings_consistent_initially.
 
 (** ... and every pending transfer of p is still pending in p's name unless p signs (ids are handed
     out by a counter: [wf_ids], an invariant of every history from the initial state). *)
